@@ -46,8 +46,8 @@ def run(scenario, profile='dev', timeout=600):
         r = subprocess.run([b, path], stdout=subprocess.PIPE, stderr=subprocess.PIPE, timeout=timeout)
     finally:
         os.unlink(path)
-    for line in r.stdout.decode(errors='replace').split('\n'):
-        if line.startswith('OBS '): return json.loads(line[4:])
+    out = r.stdout.decode(errors='replace'); k = out.rfind('OBS [')
+    if k >= 0: return json.loads(out[k + 4:].split('\n')[0])
     raise RuntimeError('replay produced no observation (rc=%s): %s' % (r.returncode, r.stderr.decode(errors='replace')[-2000:]))
 
 def run_file(path, profile='dev'):
